@@ -187,6 +187,8 @@ def run_native(exe, inputs, wd, tag):
             else:
                 fp.write("%s %d\n" % (n, v))
     env = dict(os.environ, VF_INPUTS=f, VF_LAYOUT_DIR=wd)
+    import tempfile, shutil
+    rundir = tempfile.mkdtemp(prefix="run.", dir=wd)     # files the harness creates must not leak into the next run
     try:
         def lift():
             try:
@@ -194,9 +196,10 @@ def run_native(exe, inputs, wd, tag):
             except Exception:
                 pass
         r = subprocess.run(["timeout", "20", exe], stdout=subprocess.PIPE, stderr=subprocess.PIPE, env=env, text=True,
-                           errors="replace", cwd=wd, preexec_fn=lift)
+                           errors="replace", cwd=rundir, preexec_fn=lift)
     finally:
         os.unlink(f)
+        shutil.rmtree(rundir, ignore_errors=True)
     out = {"rc": r.returncode, "lines": [], "done": False, "assume_false": False, "stderr": r.stderr[-2000:]}
     for ln in r.stdout.split("\n"):
         p = ln.split(" ")
